@@ -661,7 +661,8 @@ const RULE_C05_FRONT: &str = "process level: accepted ledgers and broken variant
 
 pub fn check_c05_front(c: &crate::props::c05::Case, obs: &mut Obs) -> Verdict {
     let ledger = crate::props::c05::mutate(c);
-    if lgen::has_excluded_placement(&ledger) {
+    // the MCP tools refuse an empty transaction list by design (C20: "for a non-empty ledger")
+    if lgen::has_excluded_placement(&ledger) || ledger.is_empty() {
         obs.excluded += 1;
         return Verdict::Pass;
     }
